@@ -37,6 +37,7 @@ CONFIGS = [
     (["use mb, only: sum"], [], ["mb"], ["sum"]),
     (["use ma", "use mb, only: sum => total", "real :: sin(2)"], ["sin"], ["ma", "mb"], ["sum"]),
     (["double precision :: dsin(4)"], ["dsin"], [], []),       # a specific intrinsic name (its generic name is SIN)
+    (["real, external :: sin", "integer, dimension(3), save :: max"], ["max", "sin"], [], []),      # declarations with attributes
 ]
 INTRINSICS = ["sin", "max", "sum", "dsin"]
 REFS = "  w = sin(1.0) + max(1, 2) + sum(q) + dsin(1.0d0)"
